@@ -8,7 +8,8 @@ package main
 //
 //	which 0 es | 1 file | 2 http | 3 kafka | 4 splunk | 5 gelf | 6 loki      (+ 16 * variant, see variants.go:
 //	      the variant selects AvgEventSize / batch_size / use_gzip / two endpoints / a fresh plugin instance for
-//	      this case / Dig before out(); the model is value-level and reduces which modulo 16)
+//	      this case / Dig before out() / run in a child process (splunk-copy-alias); the model is value-level and
+//	      reduces which modulo 16)
 //	  case = (cfg (batch ...) (status ...))      batch = (ev ...)
 //	  ev   = (kind #enc (#raw ...) (#esc ...) #topic alt)     alt = 0 | #bytes
 //	         the event is re-built from #enc alone; raw/esc/topic/alt are the oracle values the
